@@ -39,7 +39,8 @@ def sh(cmd, timeout=None, cwd=None, env=None, input=None):
 class Lock:
     def __init__(self, name):
         os.makedirs(BUILD, exist_ok=True)
-        self.path = os.path.join(BUILD, name + '.lock')
+        # the Coq tree is shared by every run whatever VERIF_BUILD says: its lock lives in the tree itself
+        self.path = os.path.join(COQ, '.coq.lock') if name == 'coq' else os.path.join(BUILD, name + '.lock')
 
     def __enter__(self):
         self.f = open(self.path, 'w')
